@@ -625,7 +625,7 @@ def frac_text(v):
     return ('-' if v < 0 else '') + (str(abs(v.numerator)) if v.denominator == 1 else '%d/%d' % (abs(v.numerator), v.denominator))
 
 
-KNOWN_INTFN = 'intfn_of_pi'     # open: floor/ceil/round of a non-zero multiple of pi is flagged exact
+KNOWN_INTFN = 'intfn_of_pi'     # fixed by fend 05b3863: a reappearance is a VIOLATION
 
 
 def check_real(c):
@@ -733,6 +733,21 @@ def check_real(c):
         if body != frac_text(mval) or marked == mflag:
             c.violation('real-model-differs', {'kind': 'impl-vs-model', 'op': 'rflag', 'expr': t, 'impl': got, 'model': model[i]}, no_input=True)
     c.sample({'op': 'eval', 'expr': rexpr_text(exprs[3]) + ' to fraction', 'impl': F.res_text(impl[3])})
+    # regression corpus of the repaired defect (fend 05b3863): integer functions of a multiple of pi stay marked
+    wit = ['floor(pi * 10^25)', 'floor(pi * 10^30)', 'round(pi * 10^30)', 'ceil(pi 10^40)', 'floor(pi)', 'ceil(2 pi)', 'round(pi/3)',
+           'floor(pi * 10^25) to fraction', 'floor(pi 10^25) + 1', '2 floor(pi 10^30)', 'floor((-1) * pi * 10^28)']
+    wo = c.impl('fmt', [sx([Sym('eval'), 0, cps(t)]) for t in wit])
+    for t, o in zip(wit, wo):
+        c.note_case('w:' + t, True, 'real:regression-witness')
+        got = F.res_text(o)
+        if not (got[0] == 'ok' and got[1].startswith('approx. ')):
+            c.violation('integer-function-of-pi-unmarked', {'kind': 'impl-vs-spec', 'op': 'eval', 'expr': t, 'impl': got,
+                                                            'note': 'regression of the defect fixed by fend 05b3863'})
+    for t in ['floor(pi - pi)', 'floor(7/2)', 'round(5/2)', 'ceil((2 pi)/(3 pi))']:      # exact arguments stay unmarked
+        got = F.res_text(c.impl('fmt', [sx([Sym('eval'), 0, cps(t)])])[0])
+        c.note_case('w:' + t, True, 'real:exact-argument')
+        if not (got[0] == 'ok' and not got[1].startswith('approx. ')):
+            c.violation('integer-function-marked-without-cause', {'kind': 'impl-vs-model', 'op': 'eval', 'expr': t, 'impl': got}, no_input=True)
     # plain (auto) display of integer-valued functions: no truncation there either
     il = [e for e in exprs if e[0] in ('floor', 'ceil', 'round')][:200]
     io = c.impl('fmt', [sx([Sym('eval'), 0, cps(rexpr_text(e))]) for e in il])
